@@ -116,10 +116,16 @@ def handle (j : Json) : R Json := do
   let cands : List (String × Variant) :=
     [("F16", { v with keepModes := true }), ("F8", { v with nul := true }), ("F15", { v with subtreeCheck := true })]
   let finding : List (String × Json) :=
-    if spec || !agree then [] else
-    match cands.find? (fun x => openHas j x.1 && involved x.2) with
-    | some (f, _) => [("finding", Json.str f)]
-    | none => []
+    if spec then [] else
+    if agree then
+      match cands.find? (fun x => openHas j x.1 && involved x.2) with
+      | some (f, _) => [("finding", Json.str f)]
+      | none => []
+    -- the statement is violated and the model does not reproduce the outcome exactly (names that
+    -- collide after truncation are resolved in Go map order): still F8's territory when reading the
+    -- names NUL-delimited - the repair of F8 alone - changes what the model computes for this input
+    else if openHas j "F8" && involved { v with nul := true } then [("finding", Json.str "F8")]
+    else []
   let last := model.getLast?
   let nontrivial := steps.any (fun s => s.2.commits > 0) || ideal.any (fun e => match e with | some e => e.commits > 0 | none => false)
   return Json.mkObj ([
